@@ -66,16 +66,25 @@ def schedule_freshness(folder, rng: Rng, n_episodes: int, n_steps: int, globals_
         plan = []
         for k in range(n_episodes + 1):
             r = rng.fork(f"ep{k}")
-            plan.append({"seed": r.below(2 ** 31), "acts": [0 if r.chance(1, 6) else r.below(2 ** 16) for _ in range(n_steps if k else max(2, n_steps // 2))]})
+            plan.append({"seed": r.below(2 ** 31) if k % 3 else [0, None][(k // 3) % 2], "acts": [0 if r.chance(1, 6) else r.below(2 ** 16) for _ in range(n_steps if k else max(2, n_steps // 2))]})
 
     def ops_of(k: int) -> List[Tuple]:
         return [("reset", plan[k]["seed"])] + [("step", a) for a in plan[k]["acts"]]
 
-    def run_episode(env, k: int) -> List[Dict[str, str]]:
+    saved_rng: Dict[int, Any] = {}
+
+    def run_episode(env, k: int, reference: bool = False) -> List[Dict[str, str]]:
         canon = iso.Canon()
         out = []
         for op in ops_of(k):
-            rec = iso.run_ops(env, [op], canon)[0]
+            if op[0] == "reset" and op[1] is None:
+                # `reset()` without a seed keeps the generators running (Gymnasium): the reference starts its reset from the generator
+                # state the long-lived environment had at its reset; everything else must not depend on the past
+                if reference:
+                    iso.restore_rng(saved_rng[k])
+                else:
+                    saved_rng[k] = iso.save_rng()
+            rec = iso.run_ops(env, [op], canon, with_rng=True)[0]
             if op[0] == "reset" and globals_fp is not None:
                 rec["globals"] = canon.text(globals_fp())
             out.append(rec)
@@ -110,7 +119,7 @@ def schedule_freshness(folder, rng: Rng, n_episodes: int, n_steps: int, globals_
         iso.normalise_process_state()
         cfg_k = join_cfg(fd, k)
         fresh = PrimaiteGymEnv(env_config=cfg_k)
-        t = run_episode(fresh, k)
+        t = run_episode(fresh, k, reference=True)
         try:
             fresh.close()
         except Exception:
